@@ -134,6 +134,77 @@ class ClassInfo:
         return "<class %s>" % self.qualname
 
 
+def canonicalise(tree):
+    """Behaviour-preserving canonical forms, applied to the in-memory syntax tree only (positions are kept), so that every
+    rule sees one spelling of two common refactors:
+      * `t = <expr>` immediately followed by `if t:` / `if not t:` where `t` occurs nowhere else in the function
+        -> `if <expr>:` (a guard computed into a single-use local is the guard);
+      * `if not c: A else: B` (plain if/else, no elif) -> `if c: B else: A`;
+      * `if a: if b: X` (no else on either) -> `if a and b: X`;
+      * `t = <expr>; return t` with single-use `t` -> `return <expr>`;
+      * `CONST == x` -> `x == CONST`, `<expr> == name` -> `name == <expr>` (also `!=`)."""
+    def uses(scope, name):
+        return sum(1 for x in ast.walk(scope) if isinstance(x, ast.Name) and x.id == name)
+
+    def block(stmts, scope):
+        out = []
+        for st in stmts:
+            rec(st, scope)
+            if isinstance(st, ast.If) and out and isinstance(out[-1], ast.Assign) and len(out[-1].targets) == 1 and \
+                    isinstance(out[-1].targets[0], ast.Name):
+                nm = out[-1].targets[0].id
+                t = st.test
+                inner = t.operand if isinstance(t, ast.UnaryOp) and isinstance(t.op, ast.Not) else t
+                if isinstance(inner, ast.Name) and inner.id == nm and uses(scope, nm) == 2 and \
+                        not isinstance(out[-1].value, (ast.Constant, ast.Name)):
+                    val = out.pop().value
+                    if inner is t:
+                        st.test = val
+                    else:
+                        t.operand = val
+            if isinstance(st, ast.Return) and isinstance(st.value, ast.Name) and out and isinstance(out[-1], ast.Assign) and \
+                    len(out[-1].targets) == 1 and isinstance(out[-1].targets[0], ast.Name) and \
+                    out[-1].targets[0].id == st.value.id and uses(scope, st.value.id) == 2 and \
+                    not isinstance(out[-1].value, (ast.Constant, ast.Name)):
+                # `t = <expr>; return t` with single-use t -> `return <expr>`
+                st.value = out.pop().value
+            while isinstance(st, ast.If) and not st.orelse and len(st.body) == 1 and isinstance(st.body[0], ast.If) and \
+                    not st.body[0].orelse:
+                # `if a: if b: X` (no else on either) -> `if a and b: X`
+                inner = st.body[0]
+                vals = (st.test.values if isinstance(st.test, ast.BoolOp) and isinstance(st.test.op, ast.And) else [st.test]) + \
+                       (inner.test.values if isinstance(inner.test, ast.BoolOp) and isinstance(inner.test.op, ast.And) else [inner.test])
+                st.test = ast.copy_location(ast.BoolOp(op=ast.And(), values=vals), st.test)
+                st.body = inner.body
+            if isinstance(st, ast.If) and st.orelse and not (len(st.orelse) == 1 and isinstance(st.orelse[0], ast.If)) and \
+                    isinstance(st.test, ast.UnaryOp) and isinstance(st.test.op, ast.Not):
+                st.test = st.test.operand
+                st.body, st.orelse = st.orelse, st.body
+            out.append(st)
+        return out
+
+    def rec(node, scope):
+        if isinstance(node, (ast.FunctionDef, ast.AsyncFunctionDef)):
+            scope = node
+        for fld in ("body", "orelse", "finalbody"):
+            v = getattr(node, fld, None)
+            if isinstance(v, list) and v and isinstance(v[0], ast.stmt):
+                setattr(node, fld, block(v, scope))
+        for h in getattr(node, "handlers", None) or []:
+            h.body = block(h.body, scope)
+        for c in getattr(node, "cases", None) or []:
+            c.body = block(c.body, scope)
+    rec(tree, tree)
+    # `CONST == x` -> `x == CONST`; `<non-name> == name` -> `name == <non-name>` (same for !=)
+    for c in ast.walk(tree):
+        if isinstance(c, ast.Compare) and len(c.ops) == 1 and isinstance(c.ops[0], (ast.Eq, ast.NotEq)):
+            l, r = c.left, c.comparators[0]
+            if (isinstance(l, ast.Constant) and not isinstance(r, ast.Constant)) or \
+                    (isinstance(r, ast.Name) and not isinstance(l, (ast.Name, ast.Constant))):
+                c.left, c.comparators = r, [l]
+    return tree
+
+
 class ModuleInfo:
     def __init__(self, name, relpath, src, is_pkg):
         self.name = name
@@ -142,7 +213,7 @@ class ModuleInfo:
         self.is_pkg = is_pkg
         with warnings.catch_warnings():
             warnings.simplefilter("ignore")
-            self.tree = ast.parse(src, filename=relpath)
+            self.tree = canonicalise(ast.parse(src, filename=relpath))
         self.functions = {}   # top-level name -> FunctionInfo
         self.classes = {}     # top-level name -> ClassInfo
         self.assigns = {}     # top-level name -> ast expr (last simple assignment)
